@@ -100,7 +100,7 @@ open Bd Fu
 included — with declared line counts consistent, C11): the tracked state refines the plain map file ↦ array of per-line
 values and the reports add up, per value, to the number of lines carrying it -/
 theorem history_inv :
-    ∀ (cs : List Commit) (s s' : BSt) (w : World), Inv s w → historyOK w cs →
+    ∀ (cs : List Bd.Commit) (s s' : BSt) (w : World), Inv s w → historyOK w cs →
     runHistory s cs = .ok s' → Inv s' (specHistory w cs) :=
   @Bd.history_inv
 
@@ -120,7 +120,7 @@ theorem total_lines :
 /-- sample rows: with non-decreasing commit values the reports with current value ≤ T add up, per birth value, to the
 lines of the repository as it stands after the last commit with value ≤ T -/
 theorem sampled_rows :
-    ∀ (cs : List Commit) (s s' : BSt) (w : World), Inv s w → historyOK w cs →
+    ∀ (cs : List Bd.Commit) (s s' : BSt) (w : World), Inv s w → historyOK w cs →
     cs.Pairwise (fun a b => a.time ≤ b.time) → runHistory s cs = .ok s' →
     ∀ (T v : Nat), (∀ e ∈ evTriples s.evs, e.1 ≤ T) → (∀ c ∈ cs, ∀ e ∈ evTriples s.evs, e.1 ≤ c.time) →
       emSumUpTo T (evTriples s'.evs) v = wCount (specHistory w (cs.takeWhile fun c => c.time ≤ T)) v :=
